@@ -30,6 +30,8 @@ def run(prog, chk):
     non_contributors(prog, chk)
     degenerate_boxes(prog, chk)
     use_translation(prog, chk)
+    from props import geomalg
+    geomalg.check(prog, chk, "C08", floor=19)
 
 
 def _lit(body, t, i):
